@@ -360,7 +360,8 @@ with gen_container (fuel : nat) (e : el) (ks : list node) (c : pctx) {struct fue
           if (String.eqb (ename N e) "defs" || String.eqb (ename N e) "symbol")%bool then (None, c2)
           else match b with Some _ => (b, update_element c2 (with_cbb N ne b)) | None => (b, c2) end in
         let c4 := match b with Some _ => set_prev c3 (with_cbb N ne b) | None => c3 end in
-        (Ok (events, b), c4)
+        (* content only rendered where it is referenced adds nothing to the parent *)
+        (Ok (events, if mem_str (ename N e) container_unrendered then None else b), c4)
   end end
 with gen_specs (fuel : nat) (e : el) (kids : option (list node)) (c : pctx) {struct fuel} : R (evs * option bbox) :=
   match fuel with O => (OutOfFuel, c) | S f =>
